@@ -168,6 +168,76 @@ def scenario(ctx, lines, pend):
     except Exception as ex:   # a conversion raising on a legitimate shape is a failure of the property
         fail('conversion raised', error='%s: %s' % (type(ex).__name__, ex))
 
+    # mixed inputs: one coordinate a scalar (or 0-d array), the other a 1-d array (points along a row or a column):
+    # numpy broadcasting, so the output has the shape of the array and is the element-wise result
+    # (FITS correctors only: gwcs / astropy.modeling refuse inputs of different shapes with a ValueError)
+    if not jw and rng.random() < 0.5:
+        ctx.branch('mixed-scalar-array')
+        try:
+            k = rng.randint(2, 5)
+            xs = np.array([rng.uniform(0.2 * nx, 0.8 * nx) for _ in range(k)])
+            ys = np.array([rng.uniform(0.2 * ny, 0.8 * ny) for _ in range(k)])
+            for nm_f, nm_b in (('det_to_world', 'world_to_det'), ('det_to_tanp', 'tanp_to_det')):
+                fwd, bwd = getattr(c, nm_f), getattr(c, nm_b)
+                full = fwd(xs, ys)
+                for which in ('scalar-x', 'scalar-y'):
+                    s0 = rng.choice([0, 1])
+                    if which == 'scalar-x':
+                        sc = float(xs[0]) if s0 else np.array(float(xs[0]))
+                        a, b = (sc, ys), (np.full(k, xs[0]), ys)
+                    else:
+                        sc = float(ys[0]) if s0 else np.array(float(ys[0]))
+                        a, b = (xs, sc), (xs, np.full(k, ys[0]))
+                    o1 = fwd(*a)
+                    o2 = fwd(*b)
+                    if any(np.shape(v) != (k,) for v in o1) or not all(np.allclose(np.asarray(u, dtype=float), np.asarray(v, dtype=float), rtol=0, atol=1e-9 * (1 + np.max(np.abs(np.asarray(v, dtype=float))))) for u, v in zip(o1, o2)):
+                        fail('mixed scalar/array input is not broadcast element-wise', method=nm_f, which=which,
+                             got_shapes=[list(np.shape(v)) for v in o1])
+                    # and back: a scalar first coordinate with an array second one
+                    t2 = fwd(*b)
+                    if which == 'scalar-x':
+                        same0 = np.full(k, float(np.asarray(t2[0])[0]))
+                        back_in = (float(np.asarray(t2[0])[0]), np.asarray(t2[1], dtype=float))
+                        back_full = (same0, np.asarray(t2[1], dtype=float))
+                    else:
+                        same1 = np.full(k, float(np.asarray(t2[1])[0]))
+                        back_in = (np.asarray(t2[0], dtype=float), float(np.asarray(t2[1])[0]))
+                        back_full = (np.asarray(t2[0], dtype=float), same1)
+                    r1 = bwd(*back_in)
+                    r2 = bwd(*back_full)
+                    if any(np.shape(v) != (k,) for v in r1) or not all(np.allclose(np.asarray(u, dtype=float), np.asarray(v, dtype=float), rtol=0, atol=10 * tol_px + 1e-9 * (1 + np.max(np.abs(np.asarray(v, dtype=float))))) for u, v in zip(r1, r2)):
+                        fail('mixed scalar/array input is not broadcast element-wise', method=nm_b, which=which,
+                             got_shapes=[list(np.shape(v)) for v in r1])
+        except Exception as ex:
+            fail('conversion raised on mixed scalar/array input', error='%s: %s' % (type(ex).__name__, ex))
+
+    # a copy that is corrected afterwards must leave THIS corrector coherent (and where it was)
+    if any(h[0] in 'SR' for h in hist) and rng.random() < 0.3:
+        ctx.branch('copy-then-correct-the-copy')
+        try:
+            px_, py_ = scenes.probe_pixels(rng, c0, 4)
+            before = [np.array(v, dtype=float) for v in c.det_to_tanp(px_, py_)] + \
+                     [np.array(v, dtype=float) for v in c.det_to_world(px_, py_)]
+            cp = c.copy()
+            f_ = c02.gen_corr(rng, unit, big=True)
+            cp.set_correction(f_.M.tolist(), f_.t.tolist())
+            after = [np.array(v, dtype=float) for v in c.det_to_tanp(px_, py_)] + \
+                    [np.array(v, dtype=float) for v in c.det_to_world(px_, py_)]
+            if not all(np.array_equal(u, v) for u, v in zip(before, after)):
+                fail('correcting a copy changed the conversions of the corrector it was copied from')
+            tq = c.det_to_tanp(px_, py_)
+            bq = c.tanp_to_det(*tq)
+            e_ = float(np.max(np.hypot(np.asarray(bq[0]) - px_, np.asarray(bq[1]) - py_)))
+            wq = c.tanp_to_world(*tq)
+            dq = c.det_to_world(px_, py_)
+            e2_ = float(np.max(np.hypot((np.asarray(wq[0]) - np.asarray(dq[0])) * np.cos(np.deg2rad(np.asarray(dq[1]))),
+                                        np.asarray(wq[1]) - np.asarray(dq[1]))))
+            if e_ > 2 * tol_px or e2_ > tol_sky:
+                fail('after a copy of it was corrected the corrector is no longer coherent', det_roundtrip=e_,
+                     triangle_deg=e2_)
+        except Exception as ex:
+            fail('copy / correction of the copy raised', error='%s: %s' % (type(ex).__name__, ex))
+
     # pass-through wrappers of WCSImageCatalog
     if shp in ('n', 'scalar') and rng.random() < 0.5:
         from tweakwcs.wcsimage import WCSImageCatalog
